@@ -153,8 +153,8 @@ func gen(r *vh.Rand, tier string) []string {
 	n := 420
 	cap := 1500.0
 	if tier == "thorough" {
-		n = 12000
-		cap = 6000.0
+		n = 4000
+		cap = 3000.0
 	}
 	var out []string
 	// fixed boundary grid (every tier)
